@@ -152,7 +152,7 @@ func (ld *Layerdefs) ProbeAllLayerstate(inuse fs.InUseLayerMap) error {
 				layer.addMessagef("Base layer %s has extraneous overlayfs dir(s)",
 					name)
 			}
-		} else if !haveWorkdir && !haveUpperdir {
+		} else if !haveWorkdir || !haveUpperdir {
 			if !haveWorkdir {
 				layer.addMessagef("Layer %s lacks an overlayfs work dir", name)
 			}
